@@ -247,7 +247,7 @@ pub fn property() -> Property {
         parts: vec![Box::new(GenPart {
             name: "descriptions",
             rule: "see property rule",
-            cases: (150_000, 5_000_000),
+            cases: (1_800_000, 5_000_000),
             strategy,
             check,
             required_classes: &["complete", "first", "first-compared-with-encap", "intermediate", "end"],
